@@ -147,7 +147,9 @@ type sysConfOpts struct {
 	// dual-stack listener that sees IPv4 peers as IPv4-mapped IPv6 addresses.
 	BindHost string
 	Wrapper  []string // command prefix, e.g. strace ...
-	Env          []string
+	Env      []string
+	// AuthLimiter replaces the default auth_attempts/block_auth_min lines.
+	AuthLimiter string
 }
 
 func sysPasswordHash() string {
@@ -166,7 +168,11 @@ func sysWriteConfig(dir string, webPort, dnsPort int, o sysConfOpts) error {
 	var sb strings.Builder
 	fmt.Fprintf(&sb, "http:\n  address: 127.0.0.1:%d\n  session_ttl: 720h\n", webPort)
 	fmt.Fprintf(&sb, "users:\n  - name: %s\n    password: %s\n", sysUser, sysPasswordHash())
-	fmt.Fprintf(&sb, "auth_attempts: 1000\nblock_auth_min: 1\n")
+	if o.AuthLimiter != "" {
+		sb.WriteString(o.AuthLimiter)
+	} else {
+		fmt.Fprintf(&sb, "auth_attempts: 1000\nblock_auth_min: 1\n")
+	}
 	if o.BindHost == "" {
 		o.BindHost = "127.0.0.1"
 	}
@@ -419,20 +425,20 @@ func sysQuery(in *sysInst, src string, tcp bool, name string, qtype uint16, time
 
 // sysListServer serves generated filter lists over HTTP.
 type sysListServer struct {
-	Port  int
-	srv   *http.Server
-	mu    sync.Mutex
-	lists map[string][]byte
-	cuts  map[string]int
-	slows map[string]sysSlow
+	Port     int
+	srv      *http.Server
+	mu       sync.Mutex
+	lists    map[string][]byte
+	cuts     map[string]int
+	slows    map[string]sysSlow
 	pathHits map[string]int
 	cutOnce  map[string]bool
 	// CutServed counts responses that were cut short on purpose.
 	CutServed atomic.Int64
 	// SlowServed counts trickled responses sent completely.
 	SlowServed atomic.Int64
-	Hits      atomic.Int64
-	delay atomic.Int64 // max microseconds
+	Hits       atomic.Int64
+	delay      atomic.Int64 // max microseconds
 }
 
 func sysStartListServer() (ls *sysListServer, err error) {
